@@ -1,6 +1,7 @@
 package sim
 
 import (
+	"time"
 	"fmt"
 	"io"
 
@@ -50,6 +51,9 @@ type Disk struct {
 	Wipes                     int
 	OnWrite                   func(off int64, old, new []byte) // monitor hook (called with the baton held)
 	OnSyncStart, OnSyncDone   func()
+	// SyncDelay, if set, is how long the Sync call that is starting takes on
+	// the simulated clock (a slow device)
+	SyncDelay func() time.Duration
 	FailNextWrites            int // harness-forced persistent write failures
 	FailNextSyncs             int
 	Closed                    bool
@@ -158,6 +162,11 @@ func (d *Disk) Sync() error {
 		d.OnSyncStart()
 	}
 	d.yield("disk." + d.Name + ".Sync")
+	if d.SyncDelay != nil && !d.Dead {
+		if dl := d.SyncDelay(); dl > 0 {
+			rt.Sleep(dl)
+		}
+	}
 	if d.Dead {
 		return errDiskIO
 	}
